@@ -1,4 +1,6 @@
 """C07  Multipart forms and uploads round-trip exactly."""
+import os
+
 from hypothesis import strategies as st
 
 from vlib.core import CheckFailure, load_corpus, fmt_exc
@@ -232,13 +234,35 @@ def check_case(ctx, case):
         ctx.nontrivial(case, sample={'boundary': boundary, 'parts': parts})
 
 
+def check_locale(ctx, case):
+    """Platform dimension: the same form parsed in a child interpreter whose locale encoding is not UTF-8 (LC_ALL=C, UTF-8 mode and locale
+    coercion off): multipart headers are UTF-8 whatever the server's locale is."""
+    import os, subprocess, sys
+    from vlib.core import VERIF, REPO
+    env = dict(os.environ, LC_ALL='C', LANG='C', PYTHONUTF8='0', PYTHONCOERCECLOCALE='0', PYTHONHASHSEED='0', VERIF_REPO=REPO, PYTHONIOENCODING='utf-8')
+    p = subprocess.run([sys.executable, os.path.join(VERIF, 'run_check.py'), 'C07', '--replay', os.path.join(VERIF, 'corpus', 'C07', case['file'])], env=env, cwd=VERIF,
+                       stdout=subprocess.PIPE, stderr=subprocess.STDOUT, text=True, encoding='utf-8', errors='replace', timeout=300)
+    ctx.evals += 1
+    if p.returncode == 1 and 'VIOLATION property=C07' in p.stdout:
+        raise CheckFailure(f'under LC_ALL=C without UTF-8 mode the form {case["file"]} does not round-trip: ' + p.stdout[-700:])
+    if p.returncode != 0:
+        raise RuntimeError(f'child interpreter failed (exit {p.returncode}): {p.stdout[-500:]}')
+    ctx.nontrivial('locale:' + case['file'])
+
+
 def run(ctx):
     for name, case in load_corpus(ID):
         ctx.guarded(check_case, case)
         ctx.count('corpus')
+    if ctx.shard == 0 and not os.environ.get('VERIF_SKIP_CORPUS'):
+        for fn in ('nonascii_names.json', 'f07a_semicolon_in_quotes.json'):
+            ctx.guarded(check_locale, {'locale': True, 'file': fn})
+        ctx.count('child_interpreter_with_non_utf8_locale')
     n = 2500 if ctx.tier == 'quick' else 20000
     ctx.hyp(form_case(), check_case, n)
 
 
 def replay(ctx, case):
+    if case.get('locale'):
+        return check_locale(ctx, case)
     check_case(ctx, case)
